@@ -237,6 +237,9 @@ func runBatch(id, tier string, seed int64, b props.Batch, bin, binRace, runDir, 
 			env = append(env, fmt.Sprintf("GOMAXPROCS=%d", b.Procs))
 		}
 		env = append(env, "GOTRACEBACK=all", "VERIF_RUNDIR="+runDir)
+		if gd := b.Args["godebug"]; gd != "" {
+			env = append(env, "GODEBUG="+gd) // (a batch that runs the library the way an older main module would)
+		}
 		if b.Race {
 			env = append(env, fmt.Sprintf("GORACE=halt_on_error=0 exitcode=0 history_size=3 log_path=%s.race", base))
 		}
